@@ -1,10 +1,10 @@
 SPECIFICATION Spec
 CONSTANTS
-  Cons <- ExprFull
+  Cons <- ExprReduced2
   Terms = {"semi"}
   MaxE = 3
   MaxS = 1
-  MaxX = 2
+  MaxX = 1
   MaxP = 0
   MaxL = 0
   MaxTop = 1
